@@ -280,7 +280,7 @@ fn fields_example(
             }
             // maybe add phantom data to struct / named composite enum
             let maybe_phantom = if needs_phantom_data {
-                quote!( __subxt_unused_type_params: ::core::marker::PhantomData )
+                quote!( __ignore: ::core::marker::PhantomData )
             } else {
                 quote!()
             };
@@ -305,8 +305,12 @@ fn fields_example(
             Ok(quote!(( #(#field_values ,)* #maybe_phantom )))
         }
         (true, true) => {
-            // no fields
-            Ok(quote!())
+            // no fields; a unit struct with unused type params is generated as a tuple struct that only holds the marker
+            if needs_phantom_data {
+                Ok(quote!((::core::marker::PhantomData)))
+            } else {
+                Ok(quote!())
+            }
         }
         (false, false) => {
             // mixed fields
